@@ -36,6 +36,40 @@ pub struct Ctx {
     pub tier: Tier,
     pub seed: u64,
     pub child: bool,
+    /// Some((k, n)): this process is shard k of n of a sharded single-threaded history space and runs nothing else
+    pub shard: Option<(usize, usize)>,
+}
+
+/// Runs the property's shardable history spaces in `n` child PROCESSES (each single-threaded: process-wide hidden
+/// state in the crate under test cannot be disturbed by another shard) and merges their reports.
+pub fn spawn_shards(ctx: &Ctx, rep: &mut Report, n: usize) {
+    let exe = std::env::current_exe().unwrap_or_else(|_| monitor::machinery_fail("cannot locate the harness binary"));
+    let mut kids = Vec::new();
+    for k in 0..n {
+        let out = std::env::temp_dir().join(format!("ckc-mc-shard-{}-{}-{}.json", ctx.id, std::process::id(), k));
+        let child = std::process::Command::new(&exe)
+            .args(["run", &ctx.id, ctx.tier.name(), "--child", out.to_str().unwrap(), "--shard", &k.to_string(), &n.to_string()])
+            .env("CKC_MC_QUIET", "1")
+            .spawn()
+            .unwrap_or_else(|_| monitor::machinery_fail("cannot spawn a shard process"));
+        kids.push((child, out));
+    }
+    let before = rep.spaces.len();
+    for (mut child, out) in kids {
+        match child.wait() {
+            Ok(s) if s.success() => {
+                let text = std::fs::read_to_string(&out).unwrap_or_else(|_| monitor::machinery_fail("shard report missing"));
+                let _ = std::fs::remove_file(&out);
+                let j = Json::parse(&text).unwrap_or_else(|e| monitor::machinery_fail(&format!("shard report unreadable: {}", e)));
+                rep.merge_shard(&j);
+            }
+            Ok(s) if s.code() == Some(1) => std::process::exit(1), // the shard's hang watchdog already printed its VIOLATION line
+            _ => monitor::machinery_fail("a shard process failed"),
+        }
+    }
+    for s in &rep.spaces[before..] {
+        eprintln!("[{} {}] space {:<44} cases {:>14} calls {:>15} (merged from {} shard processes) {:.1}s", ctx.id, profile_name(), s.name, s.cases, s.calls, n, s.wall_s);
+    }
 }
 
 static ORACLE: OnceLock<Oracle> = OnceLock::new();
@@ -95,16 +129,26 @@ pub fn registry() -> Vec<Prop> {
 pub fn confirm(judge: Judge, case: Case) -> Option<Violation> {
     let first = judge(&case);
     let second = judge(&case);
+    let unstable = |observed: String, case: Case| Violation {
+        class: format!("result-not-reproducible:{}", case.kind),
+        case,
+        expected: "the same result whenever the same call is repeated".into(),
+        observed,
+        profile: profile_name().to_string(),
+        trace: Vec::new(),
+    };
     match (first, second) {
         (Verdict::Violated { class, expected, observed }, Verdict::Violated { class: c2, observed: o2, .. }) => {
             if class != c2 || observed != o2 {
-                monitor::machinery_fail(&format!("non-reproducible observation on {:?}: '{}' then '{}'", case, observed, o2));
+                // pure functions cannot do this: the code under test answers differently on identical calls
+                return Some(unstable(format!("two consecutive executions violated differently: '{}' then '{}'", observed, o2), case));
             }
             Some(Violation { class, case, expected, observed, profile: profile_name().to_string(), trace: Vec::new() })
         }
         (Verdict::Holds, Verdict::Holds) => None,
         (Verdict::NotJudged(_), Verdict::NotJudged(_)) => None,
-        _ => monitor::machinery_fail(&format!("judge gave two different verdicts on {:?}", case)),
+        (Verdict::Violated { observed, .. }, _) | (_, Verdict::Violated { observed, .. }) => Some(unstable(format!("one of two consecutive executions of the same case violated ({}), the other did not: the result depends on something other than the input", observed), case)),
+        _ => monitor::machinery_fail(&format!("judge gave two inconsistent verdicts on {:?}", case)),
     }
 }
 
